@@ -393,6 +393,8 @@ func (st *c19Station) housekeeping(stage string) (string, string) {
 	return "", ""
 }
 
+var c19TT = []pb.TransportType{pb.TransportType_Min, pb.TransportType_Prefix, pb.TransportType_Obfs4}
+
 var c19Sources = []pb.RegistrationSource{pb.RegistrationSource_API, pb.RegistrationSource_DetectorPrescan, pb.RegistrationSource_Detector}
 
 // ingest feeds registrations through the real parse + ingest path (liveness probing replaced by a
@@ -406,17 +408,17 @@ func (st *c19Station) ingest(regs []c19RegSpec, res *c19Result) {
 		if src == pb.RegistrationSource_Detector && st.rm.EnableShareOverAPI {
 			src = pb.RegistrationSource_API // the share path posts to the network from a goroutine
 		}
-		w := vWrapper(vSecret(100+r.Secret), c08TT[r.TT%3], 0, r.Covert, !r.V6, r.V6, r.LibVer, r.Gen, src, net.ParseIP("198.51.100.7").To4())
+		w := vWrapper(vSecret(100+r.Secret), c19TT[r.TT%3], 0, r.Covert, !r.V6, r.V6, r.LibVer, r.Gen, src, net.ParseIP("198.51.100.7").To4())
 		b, err := proto.Marshal(w)
 		if err != nil {
 			continue
 		}
 		p := c19Recover(func() {
-			regs, err := st.rm.parseRegMessage(b)
+			parsedRegs, err := st.rm.parseRegMessage(b)
 			if err != nil {
 				return
 			}
-			for _, reg := range regs {
+			for _, reg := range parsedRegs {
 				if reg != nil {
 					st.rm.ingestRegistration(reg)
 				}
@@ -556,8 +558,7 @@ func c19RunConfig(x *c19Ctx, c c19ConfigCase) (res c19Result) {
 		}
 	}
 	if st.rm.registeredDecoys.TotalRegistrations() != 0 {
-		res.key, res.msg = "harness", "registrations older than 7 h survived the sweep (C08 territory; harness assumption broken)"
-		return
+		res.class("sweep-left-registrations") // C08 territory, not judged here
 	}
 	// SIGHUP with the same file: ParseConfig; on success OnReload
 	again, aerr, ap := c19Load()
